@@ -11,7 +11,7 @@ LEVEL_NOTE = [
     "A2: `re` semantics of the four numeric patterns (hand-specialised matchers in the model)",
 ]
 PARTIAL = [
-    "C11.float_valid (decimal floating constants of every shape), char_valid / char_escape_valid / char_octal_valid / char_hex_valid (plain characters; simple, octal and hexadecimal escapes with any number of digits; every encoding prefix) string_valid (opaque bodies) and hexfloat_valid (every well-formed hexadecimal floating constant) are proved; string bodies with escapes and the per-family C11_F_reported theorems are not proved yet: they are decided per input by the correspondence and by the independent recogniser below; closed witnesses of each malformed family are proved by kernel evaluation in Properties/C11.lean",
+    "C11.float_valid (decimal floating constants of every shape), char_valid / char_escape_valid / char_octal_valid / char_hex_valid (plain characters; simple, octal and hexadecimal escapes with any number of digits; every encoding prefix) string_valid (opaque bodies), string_units_valid (string bodies of any length mixing plain characters with simple, octal and hexadecimal escapes, Proofs/StringEscapes.lean) and hexfloat_valid (every well-formed hexadecimal floating constant) are proved; `\\?` inside a string and the per-family C11_F_reported theorems are not proved yet: they are decided per input by the correspondence and by the independent recogniser below; closed witnesses of each malformed family are proved by kernel evaluation in Properties/C11.lean",
 ]
 
 ISUF = ["", "u", "U", "l", "L", "ll", "LL", "z", "Z", "wb", "WB", "i64", "I64", "ul", "uL", "Ul", "UL", "lu", "lU", "Lu", "LU",
